@@ -23,7 +23,9 @@ LEVEL_TEXT = ("Structural clauses of the statement decided for all inputs: the t
               "move or look past the terminating NUL, cut lengths are non-negative, the three "
               "sources are parsed in the documented order (<name>_options exactly when no <exe>_options exists), the three no-change cases cannot reach a "
               "value parser, errors are accounted. Exact numeric conversion by strtol/strtod is "
-              "library behaviour and is not decided.")
+              "library behaviour and is not decided."
+              "  Also decided (added after the seeded rounds): numeric values are handed to strtod / strtol base 10 at the cursor, the cursor "
+              "continues at that call's end pointer and the converted number is what is returned.")
 LEVEL_NOTE = ("Trusted: clang 14 front end/CFG, tool/mpx.cc, the rule module. Not decided: that "
               "strtol/strtod return exactly the written value; options registered by drivers outside "
               "the repository.")
